@@ -699,7 +699,7 @@ class BGP(protocol.Protocol):
                     del value14['nlri']
                     key = "{"
                     for k in sorted(prefix.keys()):
-                        key += '"' + k + '"'
+                        key += '"' + str(k) + '"'
                         key += ':'
                         key += '"' + str(prefix[k]) + '"'
                         key += ','
@@ -718,7 +718,7 @@ class BGP(protocol.Protocol):
                 LOG.info('send sr')
                 key = "{"
                 for k in sorted(attr[14]['nlri'].keys()):
-                    key += '"' + k + '"'
+                    key += '"' + str(k) + '"'
                     key += ':'
                     key += '"' + str(attr[14]['nlri'][k]) + '"'
                     key += ','
@@ -741,7 +741,7 @@ class BGP(protocol.Protocol):
                     del value14['nlri']
                     key = "{"
                     for k in sorted(prefix.keys()):
-                        key += '"' + k + '"'
+                        key += '"' + str(k) + '"'
                         key += ':'
                         key += '"' + str(prefix[k]) + '"'
                         key += ','
@@ -763,7 +763,7 @@ class BGP(protocol.Protocol):
                 for prefix in attr[15]['withdraw']:
                     key = "{"
                     for k in sorted(prefix.keys()):
-                        key += '"' + k + '"'
+                        key += '"' + str(k) + '"'
                         key += ':'
                         key += '"' + str(prefix[k]) + '"'
                         key += ','
@@ -778,7 +778,7 @@ class BGP(protocol.Protocol):
                 LOG.info('withdraw sr')
                 key = "{"
                 for k in sorted(attr[15]['withdraw'].keys()):
-                    key += '"' + k + '"'
+                    key += '"' + str(k) + '"'
                     key += ':'
                     key += '"' + str(attr[15]['withdraw'][k]) + '"'
                     key += ','
@@ -794,7 +794,7 @@ class BGP(protocol.Protocol):
                 for prefix in attr[15]['withdraw']:
                     key = "{"
                     for k in sorted(prefix.keys()):
-                        key += '"' + k + '"'
+                        key += '"' + str(k) + '"'
                         key += ':'
                         key += '"' + str(prefix[k]) + '"'
                         key += ','
@@ -816,7 +816,7 @@ class BGP(protocol.Protocol):
                     del value14['nlri']
                     key = "{"
                     for k in sorted(prefix.keys()):
-                        key += '"' + k + '"'
+                        key += '"' + str(k) + '"'
                         key += ':'
                         key += '"' + str(prefix[k]) + '"'
                         key += ','
@@ -841,7 +841,7 @@ class BGP(protocol.Protocol):
                     del value14['nlri']
                     key = "{"
                     for k in sorted(prefix.keys()):
-                        key += '"' + k + '"'
+                        key += '"' + str(k) + '"'
                         key += ':'
                         key += '"' + str(prefix[k]) + '"'
                         key += ','
@@ -863,7 +863,7 @@ class BGP(protocol.Protocol):
                 for prefix in attr[15]['withdraw']:
                     key = "{"
                     for k in sorted(prefix.keys()):
-                        key += '"' + k + '"'
+                        key += '"' + str(k) + '"'
                         key += ':'
                         key += '"' + str(prefix[k]) + '"'
                         key += ','
@@ -881,7 +881,7 @@ class BGP(protocol.Protocol):
                 for prefix in attr[15]['withdraw']:
                     key = "{"
                     for k in sorted(prefix.keys()):
-                        key += '"' + k + '"'
+                        key += '"' + str(k) + '"'
                         key += ':'
                         key += '"' + str(prefix[k]) + '"'
                         key += ','
